@@ -1,5 +1,6 @@
 """C06 -- gradients accumulate; nothing but the requested .grad fields is touched (history simulation)."""
 import copy
+import json
 
 import numpy as np
 import torch
@@ -111,13 +112,15 @@ def generate(rng, tier, index):
 
 
 def _agg_tensors(agg):
-    out = []
-    for t in list(agg.parameters()) + list(agg.buffers()):
-        out.append(t)
-    for mod in agg.modules():
+    """The aggregator's own configuration tensors: (module path, attribute) -> tensor."""
+    out = {}
+    for mname, mod in agg.named_modules():
         for k, v in vars(mod).items():
             if isinstance(v, torch.Tensor):
-                out.append(v)
+                out[(mname, k)] = v
+        for k, v in list(mod._parameters.items()) + list(mod._buffers.items()):
+            if isinstance(v, torch.Tensor):
+                out[(mname, k)] = v
     return out
 
 
@@ -128,6 +131,7 @@ def execute(scn):
     cut_cache = {}
     world = World(spec, scn["sched"])
     stats, events, viols, sets = {}, [], [], {}
+    agg_cache = {}  # like user code: one aggregator object per configuration, reused by every call of the history
     exp_grad = {n: None for n in world.leaf_names}  # model of .grad
     exp_tol = {n: None for n in world.leaf_names}
     values_before = world.values_bytes()
@@ -152,8 +156,13 @@ def execute(scn):
             ambiguous = exp["ambiguous"]
         requested = list(updates.keys())
         before = world.grads()
-        agg = make_agg(call["agg"], world.dtype)
-        agg_bytes = [tensor_bytes(t) for t in _agg_tensors(agg)]
+        akey = json.dumps(call["agg"], sort_keys=True)
+        if akey in agg_cache:
+            stats["reach.aggregator_instance_reused_across_steps"] = stats.get("reach.aggregator_instance_reused_across_steps", 0) + 1
+        else:
+            agg_cache[akey] = make_agg(call["agg"], world.dtype)
+        agg = agg_cache[akey]
+        agg_before = {k: (t, tensor_bytes(t)) for k, t in _agg_tensors(agg).items()}
         world.log.clear()
         out, _ = run_call(world, call, agg=agg)
         n_calls += 1
@@ -165,8 +174,10 @@ def execute(scn):
             return False
         after = world.grads()
         # (2) aggregator's own tensors
-        if [tensor_bytes(t) for t in _agg_tensors(agg)] != agg_bytes:
-            viols.append({"clause": "aggregator_tensor_modified", "step": si, "details": {"agg": call["agg"]["kind"]}, "key": {}})
+        # tensors the aggregator was configured with must keep their bytes (new cached attributes are fine)
+        for k, (t, bts) in agg_before.items():
+            if tensor_bytes(t) != bts:
+                viols.append({"clause": "aggregator_tensor_modified", "step": si, "details": {"agg": call["agg"]["kind"], "attribute": list(k)}, "key": {}})
         # model update
         for n in requested:
             upd, tol = updates[n]
